@@ -172,6 +172,7 @@ namespace foonathan
         {
             using traits            = allocator_traits<RawAllocator>;
             using composable_traits = composable_allocator_traits<RawAllocator>;
+            using composable        = is_composable_allocator<typename traits::allocator_type>;
 
         public:
             using allocator_type = typename allocator_traits<RawAllocator>::allocator_type;
@@ -233,6 +234,7 @@ namespace foonathan
             /// \effects Calls the composable node allocation function.
             /// If allocation was successful, also calls `Tracker::on_node_allocation()`.
             /// \returns The result of `try_allocate_node()`.
+            FOONATHAN_ENABLE_IF(composable::value)
             void* try_allocate_node(std::size_t size, std::size_t alignment) noexcept
             {
                 auto mem = composable_traits::try_allocate_node(get_allocator(), size, alignment);
@@ -254,6 +256,7 @@ namespace foonathan
             /// \effects Calls the composable array allocation function.
             /// If allocation was succesful, also calls `Tracker::on_array_allocation()`.
             /// \returns The result of `try_allocate_array()`.
+            FOONATHAN_ENABLE_IF(composable::value)
             void* try_allocate_array(std::size_t count, std::size_t size,
                                      std::size_t alignment) noexcept
             {
@@ -275,6 +278,7 @@ namespace foonathan
             /// \effects Calls the composable node deallocation function.
             /// If it was succesful, also calls `Tracker::on_node_deallocation()`.
             /// \returns The result of `try_deallocate_node()`.
+            FOONATHAN_ENABLE_IF(composable::value)
             bool try_deallocate_node(void* ptr, std::size_t size, std::size_t alignment) noexcept
             {
                 auto res =
@@ -296,6 +300,7 @@ namespace foonathan
             /// \effects Calls the composable array deallocation function.
             /// If it was succesful, also calls `Tracker::on_array_deallocation()`.
             /// \returns The result of `try_deallocate_array()`.
+            FOONATHAN_ENABLE_IF(composable::value)
             bool try_deallocate_array(void* ptr, std::size_t count, std::size_t size,
                                       std::size_t alignment) noexcept
             {
